@@ -81,8 +81,9 @@ PROPS["C04"] = dict(
 
 PROPS["C06"] = dict(
     level="proof",
-    verus=["c04_partition", "c10_engine", "c02_regex", "c01_index"],
-    labels=["C06.", "C07.engine.", "C10.engine.ok_replaces_rules", "C07.tags_with_set.", "C02.regex.make.function_of_inputs", "C02.regex.compile.function_of_inputs", "C01.index."] + MASK,
+    verus=["c04_partition", "c10_engine", "c02_regex", "c01_index", "c08_wire", "c05_optimizer", "c13_store"],
+    labels=["C06.", "C07.engine.", "C10.engine.ok_replaces_rules", "C07.tags_with_set.", "C02.regex.make.function_of_inputs", "C02.regex.compile.function_of_inputs", "C01.index.",
+            "C08.wire.roundtrip_fields", "C08.wire.ser_fields", "C08.wire.de_fields", "C05.fusion.", "C13.engine.", "C13.store."] + MASK,
     kani=[],
     witness=["c06_cache.rs"],
     trusted=["NetworkFilterList::add_filter appends to the rules held (C01 units)", "regex cache (unit c02_regex, two R7 lifts of the arms of `match self.map.entry(key)` in RegexManager::matches): the Entry API itself is outside the contracts - that `key` selects this rule's entry, VacantEntry::insert hands back the stored value, cleanup() only ever sets a held regex to None; whether a pattern text compiles and whether a compiled regex matches are functions of the text and flags (uninterpreted); usage counters do not overflow",
@@ -281,6 +282,7 @@ PROPS["C09"] = dict(
     verus=["c09_order", "c09_list_optimize", "c05_grouping", "c08_shape", "c08_wiring", "c04_partition"],
     labels=["C09.", "C08.from_wire.", "C08.to_wire.", "C08.shape.", "C05.grouping.", "C04.new.tagged"] + MASK,
     kani=[],
+    witness=["c09_reload.rs"],
     trusted=["slice::sort_by_key sorts by the key and permutes (R6 lift)", "apply_optimisation (unit c05_grouping) regroups through a HashMap whose iteration order is arbitrary: its contract is order-free (which groups are fused, what is kept)",
              "NetworkFilterList::optimize (unit c09_list_optimize): HashMap::drain = every entry once in some order, Arc::try_unwrap = taken out iff not shared, into_iter().map(Arc::new).collect() = element-wise (R5/R6 lifts); optimizer::optimize enters as an uninterpreted function of the rules handed in",
              "insert_dup keeps buckets sorted by id (Entry API + binary_search_by closure: outside the subset) - NOT under contract",
@@ -310,11 +312,12 @@ PROPS["C11"] = dict(
 
 PROPS["C15"] = dict(
     level="proof",
-    verus=["c15_csp", "c01_lookup", "c05_optimizer", "c03_apply_options"],
-    labels=["C15.", "C01.check_all.", "C05.select.", "C03.apply_options."] + MASK,
+    verus=["c15_csp", "c01_lookup", "c05_optimizer", "c03_apply_options", "c03_option_text", "c01_index"],
+    labels=["C15.", "C01.check_all.", "C05.select.", "C03.apply_options.", "C03.option_text.", "C01.index."] + MASK,
     kani=[],
+    witness=["c15_csp.rs"],
     trusted=["R6: the `difference` + comma-join tail is lifted: its contract is 'None iff nothing remains, else the directive set of the string is enabled minus disabled'",
-             "&str / String obey the hash key model (vstd axiom)", "csp option parsing (implies document+subdocument, rejects explicit types): NetworkFilter::parse is not under contract"],
+             "&str / String obey the hash key model (vstd axiom)", "csp option parsing: the option text table (unit c03_option_text: `csp` with an empty value carries no directive) and the option application (unit c03_apply_options) are under contract, the rest of NetworkFilter::parse is not; how csp rules are filed by token / domain (NetworkFilterList::add_filter, unit c01_index) is under contract"],
     assumptions=[],
     level_text="Verus proves get_csp_directives: no policy for non-(sub)document requests, none when a matching active csp exception carries no directive, otherwise exactly the directives of the matching active csp rules "
                "minus those of the matching csp exceptions (over check_all's contract, proved in c01_lookup, with the enabled tags); csp rules are never fused (C05.select)",
